@@ -142,20 +142,28 @@ DirectRet(rs, i, g) ==
 \* returns of a trajectory with the final record counted as a step of reward 0 (msdm's SimulationResult.reward)
 Rewards(h) == [i \in 1..Len(h) |-> h[i].r]
 RollRets(rs, g) == RetSeq(Append(rs, 0), g)
+\* the discounted returns of a roll-out with n steps fit TLC's 32-bit integers (denominators GD^n); undiscounted
+\* returns are integer sums and always fit.  Long discounted roll-outs (the long-horizon family) are still validated
+\* step by step and their visit counts are exact; only their return *values* are left to the driver's Fractions.
+Fits(T, n) == T.GN = T.GD \/ n <= (IF T.GD <= 2 THEN 20 ELSE IF T.GD <= 4 THEN 10 ELSE 6)
 
 \* ------------------------------------------------------------------ (O) truncated exact evaluation (MDP policies)
-RECURSIVE TruncV(_, _)
-TruncV(T, k) ==
-  IF k = 0 THEN [x \in St(T) |-> <<0, 1>>]
-  ELSE LET v == TruncV(T, k - 1) IN
-       TLCEval([x \in St(T) |->
-         IF IsAbs(T, x) THEN <<0, 1>>
-         ELSE RSumTo([a \in Ac(T) |->
-                IF T.W[x][a] = 0 THEN <<0, 1>>
-                ELSE RMul(<<T.W[x][a], T.QD>>,
-                          RSumTo([u \in St(T) |->
-                             IF T.P[x][a][u] = 0 THEN <<0, 1>>
-                             ELSE RMul(<<T.P[x][a][u], T.PD>>, RAdd(<<T.R[x][a][u], 1>>, RMul(Gam(T), v[u])))], T.N))], T.K)])
+\* one backup: V_k from V_{k-1}
+TruncStep(T, v) ==
+  TLCEval([x \in St(T) |->
+    IF IsAbs(T, x) THEN <<0, 1>>
+    ELSE RSumTo([a \in Ac(T) |->
+           IF T.W[x][a] = 0 THEN <<0, 1>>
+           ELSE RMul(<<T.W[x][a], T.QD>>,
+                     RSumTo([u \in St(T) |->
+                        IF T.P[x][a][u] = 0 THEN <<0, 1>>
+                        ELSE RMul(<<T.P[x][a][u], T.PD>>, RAdd(<<T.R[x][a][u], 1>>, RMul(Gam(T), v[u])))], T.N))], T.K)])
+\* <<V_0, ..., V_k>> (entry k + 1 is V_k), linear in k
+RECURSIVE TruncSeq(_, _)
+TruncSeq(T, k) ==
+  IF k = 0 THEN <<[x \in St(T) |-> <<0, 1>>]>>
+  ELSE LET prev == TruncSeq(T, k - 1) IN Append(prev, TruncStep(T, prev[k]))
+TruncV(T, k) == TruncSeq(T, k)[k + 1]
 
 \* deterministic policy on a deterministic MDP with a single initial state
 IsDet(T) ==
@@ -176,7 +184,8 @@ DetOracle(T, cap) ==
       tr == DetTraj(T, s0, cap)
       n  == Len(tr)
       vis(x) == {i \in 1..n : tr[i] = x}
-      tv == TLCEval([k \in 0..cap |-> TruncV(T, k)])
+      ts == TruncSeq(T, cap)
+      tv == [k \in 0..cap |-> ts[k + 1]]
       \* (the final record has return 0: either absorbing or no steps left, and TruncV is 0 in both cases)
       val(i) == tv[cap - (i - 1)][tr[i]]
   IN [iv |-> tv[cap][s0],
@@ -196,7 +205,9 @@ VSum(E, final, G(_, _)) ==
             RSumTo([i \in 1..m |-> G(ri, i)], m)], n)
 EvalTables(T, E, final) ==
   LET n    == Len(E.rolls)
-      rets == TLCEval([ri \in 1..n |-> RollRets(E.rolls[ri].rs, Gam(T))])
+      fit  == \A ri \in 1..n : Fits(T, Len(E.rolls[ri].rs))
+      rets == TLCEval([ri \in 1..n |-> IF fit THEN RollRets(E.rolls[ri].rs, Gam(T))
+                                               ELSE [i \in 1..(Len(E.rolls[ri].rs) + 1) |-> <<0, 1>>]])
       st(ri, i)  == E.rolls[ri].ss[i]
       act(ri, i) == IF i <= Len(E.rolls[ri].as) THEN E.rolls[ri].as[i] ELSE 0
       visited == UNION {{E.rolls[ri].ss[i] : i \in 1..(Len(E.rolls[ri].ss) - (1 - final))} : ri \in 1..n}
@@ -205,7 +216,7 @@ EvalTables(T, E, final) ==
       acts(x) == UNION {{act(ri, i) : i \in {j \in 1..(Len(E.rolls[ri].ss) - (1 - final)) : st(ri, j) = x}} : ri \in 1..n}
       cnta(x, a) == VSum(E, final, LAMBDA ri, i : IF st(ri, i) = x /\ act(ri, i) = a THEN <<1, 1>> ELSE <<0, 1>>)[1]
       tota(x, a) == VSum(E, final, LAMBDA ri, i : IF st(ri, i) = x /\ act(ri, i) = a THEN rets[ri][i] ELSE <<0, 1>>)
-  IN [n   |-> n,
+  IN [n   |-> n, valsok |-> fit,
       iv  |-> IF n = 0 THEN UNAV ELSE RMul(RSumTo([ri \in 1..n |-> rets[ri][1]], n), <<1, n>>),
       sv  |-> [x \in visited |-> RMul(tot(x), <<1, cnt(x)>>)],
       cnt |-> [x \in visited |-> cnt(x)],
@@ -322,7 +333,7 @@ TraceRewards(tr) ==
 EvalRecord(T, E) ==
   LET main == EvalTables(T, E, 1)
       alt  == EvalTables(T, E, 0)
-      det  == IsDet(T)
+      det  == IsDet(T) /\ Fits(T, E.cap)
       dor  == IF det THEN DetOracle(T, E.cap) ELSE <<>>
       \* every recorded roll-out is the unique trajectory of the deterministic model
       same == det /\ \A ri \in 1..Len(E.rolls) : E.rolls[ri].ss = dor.traj
@@ -340,12 +351,13 @@ Emit ==
                            hist |-> hist, fin |-> s, fag |-> ag, rets |-> RollRets(Rewards(hist), Gam(TI))]))
        /\ phase = "oracle" =>
             PrintT(ToJson([kind |-> "oracle", cid |-> tid,
-                           tv |-> [k \in 0..Job.cap |-> TruncV(TI, k)], det |-> IsDet(TI)]))
+                           tv |-> LET ts == TruncSeq(TI, Job.cap) IN [k \in 0..Job.cap |-> ts[k + 1]], det |-> IsDet(TI)]))
   ELSE phase # "run" =>
          IF Tr.kind = "roll"
          THEN PrintT(ToJson([tid |-> tid, kind |-> "roll", phase |-> phase, l |-> l, t |-> t,
                              fails |-> fails, flags |-> flags,
-                             rets |-> IF phase = "done" THEN RollRets(TraceRewards(Tr), Gam(TI)) ELSE <<>>]))
+                             rets |-> IF phase = "done" /\ Fits(TI, t) THEN RollRets(TraceRewards(Tr), Gam(TI)) ELSE <<>>,
+                             retsok |-> Fits(TI, t)]))
          ELSE IF Tr.kind = "eval" THEN PrintT(ToJson(EvalRecord(TI, Tr)))
          ELSE PrintT(ToJson([tid |-> tid, kind |-> "ret",
                              rets |-> RetSeq(Tr.rs, <<Tr.GN, Tr.GD>>),
